@@ -14,6 +14,7 @@ import (
 	"time"
 
 	"github.com/cube2222/octosql/execution"
+	"github.com/cube2222/octosql/execution/nodes"
 	"github.com/cube2222/octosql/octosql"
 
 	"verifharness/lib"
@@ -220,6 +221,31 @@ func parseNative(out string, n int) ([]lib.Event, error) {
 	return evs, nil
 }
 
+// genChangelog draws a valid changelog (inserts, duplicates, retractions of present rows) with zero and non-zero event times.
+func genChangelog(r *lib.Rng, arity, n int) []lib.Event {
+	var evs []lib.Event
+	var present [][]octosql.Value
+	for i := 0; i < n; i++ {
+		if len(present) > 0 && r.Chance(2, 5) {
+			k := r.Intn(len(present))
+			vals := present[k]
+			present = append(present[:k:k], present[k+1:]...)
+			evs = append(evs, lib.Event{Rec: execution.NewRecord(vals, true, lib.T(int64(r.Intn(4))))})
+			continue
+		}
+		vals := make([]octosql.Value, arity)
+		for j := range vals {
+			vals[j] = lib.GenValue(r, lib.SmallProfile, 0)
+		}
+		if len(present) > 0 && r.Chance(1, 4) {
+			vals = present[r.Intn(len(present))]
+		}
+		present = append(present, vals)
+		evs = append(evs, lib.Event{Rec: execution.NewRecord(vals, false, lib.T(int64(r.Intn(4))))})
+	}
+	return evs
+}
+
 func main() {
 	f := lib.ParseFlags()
 	if f.Cmd != "run" {
@@ -252,7 +278,7 @@ func main() {
 	cf := lib.NewCaseFile("C02", f.Seed, f.Tier)
 	cf.Imports = []string{"JoinQuery"}
 	cf.CaseType = "c02_case"
-	cf.Checks = []lib.Check{{Name: "spec", Kind: "spec", Fn: "c02_spec"}}
+	cf.Checks = []lib.Check{{Name: "spec", Kind: "spec", Fn: "c02_spec"}, {Name: "lookup_tie", Kind: "tie", Fn: "c02_lookup_tie"}, {Name: "lookup_spec", Kind: "spec", Fn: "c02_lookup_spec"}}
 	cf.Side.Rule = "the built CLI on SELECT * FROM t0 x0 <JOIN|LEFT JOIN|RIGHT JOIN|OUTER JOIN|LOOKUP JOIN> t1 x1 ON <1-3 equalities [+ theta conjunct for inner/lookup]> " +
 		"[<join> t2 x2 ON ...] | right-nested x0 <JOIN|LOOKUP JOIN> (x1 <JOIN|LOOKUP JOIN> x2 ON ... incl. references to x0) ON ... [WHERE conjuncts incl. cross-table equalities that the optimizer moves into an already keyed join] over generated JSON tables (0-6 rows, NULL and duplicate keys, duplicate rows), each query with and without --optimize=false; " +
 		"inner/lookup through -o json, queries with an outer join through -o stream_native (retractions visible); oracle = rel_join computed in Coq, rows compared as bags; " +
@@ -471,7 +497,7 @@ func main() {
 			for k, e := range evs {
 				recs[k] = fmt.Sprintf("mkrec %s %s zero_ns", lib.CoqValues(e.Rec.Values), lib.CoqBool(e.Rec.Retraction))
 			}
-			coq := fmt.Sprintf("mkc02 %s 3%%nat %s %s %s", rowsCoq(tabs[0].rows), lib.CoqList(stepsCoq), condsCoq(where), lib.CoqList(recs))
+			coq := fmt.Sprintf("mkc02 %s 3%%nat %s %s %s [] [] []", rowsCoq(tabs[0].rows), lib.CoqList(stepsCoq), condsCoq(where), lib.CoqList(recs))
 			tj := make([]interface{}, len(tabs))
 			for k, t := range tabs {
 				rj := make([]interface{}, len(t.rows))
@@ -513,6 +539,42 @@ func main() {
 			} else if perr != nil {
 				cf.Violation(idx, "unreadable CLI output: "+perr.Error(), "")
 			}
+		}
+	}
+	// node level: LookupJoin over changelogs with retractions on the source and on the joined side
+	nl := f.Cases(120, 1200)
+	for i := 0; i < nl; i++ {
+		r := rng.Fork()
+		src := genChangelog(r, 1+r.Intn(2), r.Intn(6))
+		joined := genChangelog(r, 1+r.Intn(2), r.Intn(5))
+		out, err, p := lib.RunNode(nodes.NewLookupJoin(&lib.ScriptSource{Events: src}, &lib.ScriptSource{Events: joined}))
+		recsOf := func(evs []lib.Event) string {
+			parts := make([]string, len(evs))
+			for k, e := range evs {
+				parts[k] = fmt.Sprintf("mkrec %s %s %s", lib.CoqValues(e.Rec.Values), lib.CoqBool(e.Rec.Retraction), lib.Ns(e.Rec.EventTime))
+			}
+			return lib.CoqList(parts)
+		}
+		hasRetr := func(evs []lib.Event) bool {
+			for _, e := range evs {
+				if e.Rec.Retraction {
+					return true
+				}
+			}
+			return false
+		}
+		coq := fmt.Sprintf("mkc02 [] 0%%nat [] [] [] %s %s %s", recsOf(src), recsOf(joined), lib.CoqEvents(out))
+		js := map[string]interface{}{"node": "LookupJoin", "source": lib.EventsJSON(src), "joined": lib.EventsJSON(joined), "emitted": lib.EventsJSON(out)}
+		idx := cf.Add(coq, js, hasRetr(src) && hasRetr(joined))
+		cf.Count("node_lookup_join")
+		if hasRetr(src) && hasRetr(joined) {
+			cf.Count("node_lookup_join_retractions_on_both_sides")
+		}
+		if err != nil {
+			cf.Violation(idx, "LookupJoin returned an error on error-free sources: "+err.Error(), "")
+		}
+		if p != nil {
+			cf.Violation(idx, fmt.Sprintf("LookupJoin panicked: %v", p), "")
 		}
 	}
 	cf.Side.Notes = append(cf.Side.Notes, fmt.Sprintf("%d distinct queries, each run with the optimizer on and off", queries))
